@@ -18,3 +18,58 @@ fn verif_map_err<T, E>(r: Result<T, E>) -> (q: Result<T, String>)
     ensures r is Ok <==> q is Ok, r matches Ok(v) ==> q == Ok::<T, String>(v)
 { unimplemented!() }
 #[verifier::external_type_specification] #[verifier::external_body] pub struct ExIoError(std::io::Error);
+// ---- text files and lines (load_formulae): TRUSTED model of std, written from the std documentation
+pub uninterp spec fn file_content(path: Seq<char>) -> Seq<char>;
+pub assume_specification[ read_to_string ](path: &str) -> (r: Result<String, std::io::Error>)
+    ensures r matches Ok(s) ==> s@ == file_content(path@);
+// str::lines: "Lines are split at line endings that are either newlines (\n) or sequences of a carriage return followed by a line
+// feed (\r\n). Line terminators are not included in the lines returned by the iterator. The final line ending is optional. A bare
+// carriage return at the end of a line is preserved."
+pub open spec fn index_of_nl(s: Seq<char>) -> int decreases s.len() {
+    if s.len() == 0 { 0 } else if s[0] == '\n' { 0 } else { 1 + index_of_nl(s.drop_first()) }
+}
+pub proof fn lemma_index_of_nl(s: Seq<char>)
+    ensures 0 <= index_of_nl(s) <= s.len()
+    decreases s.len()
+{
+    if s.len() > 0 && s[0] != '\n' { lemma_index_of_nl(s.drop_first()); }
+}
+pub open spec fn strip_cr(l: Seq<char>) -> Seq<char> { if l.len() > 0 && l[l.len() - 1] == '\r' { l.subrange(0, l.len() - 1) } else { l } }
+pub open spec fn lines_of(s: Seq<char>) -> Seq<Seq<char>> decreases s.len() via lines_of_dec {
+    if s.len() == 0 { Seq::<Seq<char>>::empty() } else {
+        let k = index_of_nl(s);
+        if k >= s.len() { seq![s] }                                   // last line without terminator: kept as it is
+        else { seq![strip_cr(s.subrange(0, k))] + lines_of(s.subrange(k + 1, s.len() as int)) }
+    }
+}
+#[via_fn]
+proof fn lines_of_dec(s: Seq<char>) { lemma_index_of_nl(s); }
+#[verifier::external_type_specification] #[verifier::external_body] pub struct ExLines<'a>(std::str::Lines<'a>);
+pub uninterp spec fn lines_rest(it: &std::str::Lines) -> Seq<Seq<char>>;      // the lines still to be yielded
+pub assume_specification<'a>[ str::lines ](s: &'a str) -> (r: std::str::Lines<'a>)
+    ensures lines_rest(&r) == lines_of(s@);
+pub assume_specification<'a>[ <std::str::Lines<'a> as Iterator>::next ](it: &mut std::str::Lines<'a>) -> (r: Option<&'a str>)
+    ensures
+        lines_rest(old(it)).len() == 0 ==> r is None && lines_rest(final(it)) == lines_rest(old(it)),
+        lines_rest(old(it)).len() > 0 ==> (r matches Some(l) && l@ == lines_rest(old(it))[0] && lines_rest(final(it)) == lines_rest(old(it)).drop_first());
+// str::trim: "Returns a string slice with leading and trailing whitespace removed. 'Whitespace' is defined according to the terms of
+// the Unicode Derived Core Property White_Space"
+pub open spec fn trim_front(s: Seq<char>) -> Seq<char> decreases s.len() {
+    if s.len() > 0 && is_white_space(s[0]) { trim_front(s.drop_first()) } else { s }
+}
+pub open spec fn trim_back(s: Seq<char>) -> Seq<char> decreases s.len() {
+    if s.len() > 0 && is_white_space(s[s.len() - 1]) { trim_back(s.drop_last()) } else { s }
+}
+pub open spec fn trim_of(s: Seq<char>) -> Seq<char> { trim_back(trim_front(s)) }
+pub assume_specification<'a>[ str::trim ](s: &'a str) -> (r: &'a str)
+    ensures r@ == trim_of(s@);
+// R-startswith: str::starts_with with a char pattern
+#[verifier::external_body]
+fn str_starts_with_char(s: &str, c: char) -> (r: bool)
+    ensures r == (s@.len() > 0 && s@[0] == c)
+{ unimplemented!() }
+// R-tostr: ToString of a string slice copies it
+#[verifier::external_body]
+fn tostr_strslice(s: &&str) -> (r: String)
+    ensures r@ == (*s)@
+{ unimplemented!() }
